@@ -5,6 +5,7 @@
 # worktree and stores everything under /verif/seeded/<name>/.
 set -u
 SRC=$(readlink -f "$1"); ID=$2; NAME=$3
+V=$(cd "$(dirname "$0")/.." && pwd)   # the /verif tree (or a scratch worktree of it) whose check is run
 W=/tmp/confirm-$$
 OUT=/verif/seeded/$NAME
 mkdir -p "$OUT"
@@ -25,9 +26,9 @@ for tc in ET.parse(sys.argv[1]).getroot().iter('testcase'):
 print('%d/%d baseline tests pass with the patch' % (len(want & got), len(want)))
 for m in sorted(want - got): print('NOT PASSING', m)
 PY
-cd /verif
+cd "$V"
 cp evidence/$ID.json /tmp/confirm-ev-$$.json 2>/dev/null
-CNVKIT_REPO=$W PYTHONPATH=$W:/verif/harness PYTHONHASHSEED=0 CNVKIT_VERIF=1 PYTHONWARNINGS=ignore OMP_NUM_THREADS=1 PYTHONDONTWRITEBYTECODE=1 \
+CNVKIT_REPO=$W PYTHONPATH=$W:$V/harness PYTHONHASHSEED=0 CNVKIT_VERIF=1 PYTHONWARNINGS=ignore OMP_NUM_THREADS=1 PYTHONDONTWRITEBYTECODE=1 \
   /venv/bin/python harness/main.py $ID --tier quick > /tmp/confirm-$$-check.log 2>&1
 RCC=$?
 git -C /repo worktree remove --force "$W"
